@@ -5,70 +5,90 @@
 
 namespace viewsim {
 
-// ---------------------------------------------------------------- index-tensor views (rank 1): A(it1).noalias() op= f(A(it2))
-template <class U, int R = U::R> struct Rank1Ops {
+// ---------------------------------------------------------------- index-tensor and boolean-mask views (rank 1 and 2)
+// For a rank-2 parent the index tensor is itself rank 2 and holds FLAT indices into the parent.
+template <class U, int R = U::R> struct IdxTypes { enum { available = 0 }; };
+template <class T, size_t N> struct IdxTypes<Uni<T, N>, 1> {
+    enum { available = 1 };
+    using Part = Tensor<int, (N >= 2 ? (N + 1) / 2 : 1)>; using PartU = Tensor<size_t, (N >= 2 ? (N + 1) / 2 : 1)>;
+    using Full = Tensor<int, N>; using Mask = Tensor<bool, N>;
+};
+template <class T, size_t M, size_t N> struct IdxTypes<Uni<T, M, N>, 2> {
+    enum { available = 1 };
+    using Part = Tensor<int, M, (N + 1) / 2>; using PartU = Tensor<size_t, M, (N + 1) / 2>;
+    using Full = Tensor<int, M, N>; using Mask = Tensor<bool, M, N>;
+};
+template <class U, bool Av = IdxTypes<U>::available> struct IdxOps {
     static void idx(U &, const Step &, StepCtx &) {}
     static void mask(U &, const Step &, StepCtx &) {}
-    enum { available = 0 };
 };
-template <class U> struct Rank1Ops<U, 1> {
-    enum { available = 1 };
+template <class U> struct IdxOps<U, true> {
     using T = typename U::Ten::scalar_type;
+    using Part = typename IdxTypes<U>::Part; using PartU = typename IdxTypes<U>::PartU; using Full = typename IdxTypes<U>::Full; using Mask = typename IdxTypes<U>::Mask;
     static constexpr int N = U::SZ;
-    static constexpr int K = N >= 2 ? (N + 1) / 2 : 1;
+    static constexpr int K = (int)Part::size();
     // duplicate-free index vector: start + i*stride (mod N), stride coprime to N
     static int coprime_stride(uint32_t a) { for (int s = 1 + (int)(a % (uint32_t)N);; s = s % N + 1) { int x = s, y = N; while (y) { int t = x % y; x = y; y = t; } if (x == 1) return s; } }
     static void idx(U &u, const Step &st, StepCtx &cx) {
-        int op = (int)(st.a[A_OP] % 5); uint32_t fk = st.a[A_RHS] % 3; bool coincident = (st.a[A_FORM] % 4) == 0;
+        int op = (int)(st.a[A_OP] % 5); uint32_t fk = st.a[A_RHS] % 4; bool coincident = (st.a[A_FORM] % 4) == 0;
         u.normalise(cx.si, op, true);
-        Tensor<int, K> it1, it2;
+        Part it1, it2; PartU it2u;
         int st1 = coprime_stride(st.a[A_D0]), o1 = (int)(st.a[A_D0 + 1] % (uint32_t)N);
-        for (int i = 0; i < K; ++i) it1(i) = (o1 + i * st1) % N;
-        // source indices: arbitrary (repeats allowed on the read side)
-        for (int i = 0; i < K; ++i) it2(i) = coincident ? it1(i) : (int)(mix2(st.a[A_S0], (uint64_t)i) % (uint64_t)N);
+        for (int i = 0; i < K; ++i) it1.data()[i] = (o1 + i * st1) % N;
+        // source indices: the destination shifted (hazard-rich) or arbitrary (repeats allowed on the read side)
+        int shift = 1 + (int)(st.a[A_S0 + 1] % 4); bool shifted = (st.a[A_S0 + 2] % 3) != 0;
+        for (int i = 0; i < K; ++i) { it2.data()[i] = coincident ? it1.data()[i] : (shifted ? (it1.data()[i] + N - shift * st1 % N) % N : (int)(mix2(st.a[A_S0], (uint64_t)i) % (uint64_t)N)); it2u.data()[i] = (size_t)it2.data()[i]; }
         if (op == 4) fk = 0;
+        if (coincident && fk == 3) fk = 0;
         T cst = smallval<T>(st.a[A_VAL]);
         u.expA = u.sA; u.naive = u.sA;
-        auto f = [&](T x) -> T { switch (fk) { case 0: return x; case 1: return (T)(x + cst); default: return (T)((T)2 * x - cst); } };
-        for (int i = 0; i < K; ++i) u.expA[it1(i)] = apply_op<T>(op, u.sA[it1(i)], f(u.sA[it2(i)]));
-        for (int i = 0; i < K; ++i) u.naive[it1(i)] = apply_op<T>(op, u.naive[it1(i)], f(u.naive[it2(i)]));
+        auto f = [&](T x) -> T { switch (fk) { case 1: return (T)(x + cst); case 2: return (T)((T)2 * x - cst); default: return x; } };
+        for (int i = 0; i < K; ++i) u.expA[it1.data()[i]] = apply_op<T>(op, u.sA[it1.data()[i]], f(u.sA[it2.data()[i]]));
+        for (int i = 0; i < K; ++i) u.naive[it1.data()[i]] = apply_op<T>(op, u.naive[it1.data()[i]], f(u.naive[it2.data()[i]]));
         bool hazard = memcmp(u.expA.data(), u.naive.data(), sizeof(T) * N) != 0;
         auto &a = *u.A;
         Outcome o = window([&] {
             if (coincident) { switch (fk) { case 0: do_assign(op, a(it1), a(it2)); break; case 1: do_assign(op, a(it1), a(it2) + cst); break; default: do_assign(op, a(it1), (T)2 * a(it2) - cst); } }
-            else { switch (fk) { case 0: do_assign(op, a(it1).noalias(), a(it2)); break; case 1: do_assign(op, a(it1).noalias(), a(it2) + cst); break; default: do_assign(op, a(it1).noalias(), (T)2 * a(it2) - cst); } }
+            else { switch (fk) { case 0: do_assign(op, a(it1).noalias(), a(it2)); break; case 1: do_assign(op, a(it1).noalias(), a(it2) + cst); break; case 2: do_assign(op, a(it1).noalias(), (T)2 * a(it2) - cst); break;
+                                 default: do_assign(op, a(it1).noalias(), a(it2u)); } }      // source through an index tensor of another integer type
         }, u.failalloc);
-        snprintf(cx.info->desc, sizeof cx.info->desc, "A(idx start %d stride %d)%s %s f%u(A(idx2))", o1, st1, coincident ? "" : ".noalias()", OPNAME[op], fk);
+        snprintf(cx.info->desc, sizeof cx.info->desc, "A(idx start %d stride %d)%s %s f%u(A(idx2 %s))", o1, st1, coincident ? "" : ".noalias()", OPNAME[op], fk, coincident ? "same" : (shifted ? "shifted" : "random"));
         cx.info->nontrivial = hazard;
-        cx.info->sig = mix2(mix2(((uint64_t)op << 8) | fk, coincident ? 5 : 4), (uint64_t)st1);
+        cx.info->sig = mix2(mix2(((uint64_t)op << 8) | fk, coincident ? 5 : 4), (uint64_t)st1 * 8 + (shifted ? (uint64_t)shift : 0));
         if (cx.cnt) cx.cnt->bump(std::string("probe/index-view overlap ") + U::overlap_class(coincident, hazard));
-        std::vector<char> sm(N, 0); for (int i = 0; i < K; ++i) sm[it1(i)] = 1;
+        std::vector<char> sm(N, 0); for (int i = 0; i < K; ++i) sm[it1.data()[i]] = 1;
         u.finish(cx, o, "idx_alias", nullptr, cx.info->desc, &sm);
     }
     // boolean-mask destination; the hazardous source is a full-size index view of the same parent (permutation / rotation)
     static void mask(U &u, const Step &st, StepCtx &cx) {
-        int op = (int)(st.a[A_OP] % 5); bool coincident = (st.a[A_FORM] % 4) == 0;
+        int op = (int)(st.a[A_OP] % 5); bool coincident = (st.a[A_FORM] % 4) == 0; uint32_t fk = st.a[A_RHS] % 2;
         u.normalise(cx.si, op, true);
-        Tensor<bool, N> m; Tensor<int, N> it;
-        for (int i = 0; i < N; ++i) m(i) = (mix2(st.a[A_D0], (uint64_t)i) & 3) != 0;
+        Mask m; Full it;
+        for (int i = 0; i < N; ++i) m.data()[i] = (mix2(st.a[A_D0], (uint64_t)i) & 3) != 0;
         int mode = (int)(st.a[A_S0] % 3), rot = 1 + (int)(st.a[A_S0 + 1] % (uint32_t)(N > 1 ? N - 1 : 1));
-        for (int i = 0; i < N; ++i) it(i) = coincident ? i : (mode == 0 ? N - 1 - i : (mode == 1 ? (i + rot) % N : (i + N - rot % N) % N));
+        for (int i = 0; i < N; ++i) it.data()[i] = coincident ? i : (mode == 0 ? N - 1 - i : (mode == 1 ? (i + rot) % N : (i + N - rot % N) % N));
+        if (op == 4) fk = 0;
+        T cst = smallval<T>(st.a[A_VAL]);
+        auto f = [&](T x) -> T { return fk ? (T)(x + cst) : x; };
         u.expA = u.sA; u.naive = u.sA;
-        for (int i = 0; i < N; ++i) if (m(i)) u.expA[i] = apply_op<T>(op, u.sA[i], u.sA[it(i)]);
-        for (int i = 0; i < N; ++i) if (m(i)) u.naive[i] = apply_op<T>(op, u.naive[i], u.naive[it(i)]);
+        for (int i = 0; i < N; ++i) if (m.data()[i]) u.expA[i] = apply_op<T>(op, u.sA[i], f(u.sA[it.data()[i]]));
+        for (int i = 0; i < N; ++i) if (m.data()[i]) u.naive[i] = apply_op<T>(op, u.naive[i], f(u.naive[it.data()[i]]));
         bool hazard = memcmp(u.expA.data(), u.naive.data(), sizeof(T) * N) != 0;
         auto &a = *u.A;
-        Outcome o = window([&] { if (coincident) do_assign(op, a(m), a(it)); else do_assign(op, a(m).noalias(), a(it)); }, u.failalloc);
-        snprintf(cx.info->desc, sizeof cx.info->desc, "A(mask)%s %s A(%s)", coincident ? "" : ".noalias()", OPNAME[op], coincident ? "identity index" : (mode == 0 ? "reversed index" : "rotated index"));
+        Outcome o = window([&] {
+            if (coincident) { if (fk) do_assign(op, a(m), a(it) + cst); else do_assign(op, a(m), a(it)); }
+            else { if (fk) do_assign(op, a(m).noalias(), a(it) + cst); else do_assign(op, a(m).noalias(), a(it)); }
+        }, u.failalloc);
+        snprintf(cx.info->desc, sizeof cx.info->desc, "A(mask)%s %s f%u(A(%s))", coincident ? "" : ".noalias()", OPNAME[op], fk, coincident ? "identity index" : (mode == 0 ? "reversed index" : "rotated index"));
         cx.info->nontrivial = hazard;
-        cx.info->sig = mix2(mix2((uint64_t)op, coincident ? 7 : 6), (uint64_t)mode * 64 + (uint64_t)rot);
+        cx.info->sig = mix2(mix2(((uint64_t)op << 4) | fk, coincident ? 7 : 6), (uint64_t)mode * 64 + (uint64_t)rot);
         if (cx.cnt) cx.cnt->bump(std::string("probe/mask-view overlap ") + U::overlap_class(coincident, hazard));
-        std::vector<char> sm(N, 0); for (int i = 0; i < N; ++i) sm[i] = m(i) ? 1 : 0;
+        std::vector<char> sm(N, 0); for (int i = 0; i < N; ++i) sm[i] = m.data()[i] ? 1 : 0;
         u.finish(cx, o, "mask_alias", nullptr, cx.info->desc, &sm);
     }
 };
-template <class T, size_t... D> void Uni<T, D...>::idx_alias(const Step &st, StepCtx &cx) { Rank1Ops<self>::idx(*this, st, cx); }
-template <class T, size_t... D> void Uni<T, D...>::mask_alias(const Step &st, StepCtx &cx) { Rank1Ops<self>::mask(*this, st, cx); }
+template <class T, size_t... D> void Uni<T, D...>::idx_alias(const Step &st, StepCtx &cx) { IdxOps<self>::idx(*this, st, cx); }
+template <class T, size_t... D> void Uni<T, D...>::mask_alias(const Step &st, StepCtx &cx) { IdxOps<self>::mask(*this, st, cx); }
 
 // ---------------------------------------------------------------- diagonal views (rank-2 square): coincident clause only
 template <class U, bool Square> struct DiagOps { static void go(U &, const Step &, StepCtx &) {} enum { available = 0 }; };
